@@ -7,10 +7,15 @@
    ch16 = char16_t (unsigned 16), ch32 = char32_t (unsigned 32).
    `midpoint_ptr t=i64 n=<len> a=<index> bs=[index,..]`: the pointer overload of midpoint on an array of
    `n` elements, pointers and result as indices.
-   With a list argument the op is evaluated for every element and the results are printed as `[r1,r2,...]`. -/
+   With a list argument the op is evaluated for every element and the results are printed as `[r1,r2,...]`.
+   Tie T: wherever gen/translate.py carries the kernel (Tetl/C14/Gen.lean, regenerated from the headers on every run) the
+   GENERATED function is evaluated on the same arguments; when the hand model returns a value and the generated one
+   differs (or its undefined-behaviour obligation is false: `ub`) the model column reads `<model>!gen=<generated>`, which
+   no implementation result equals. -/
 import Tetl.Proto
 import Tetl.C14.Model
 import Tetl.C14.Spec
+import Tetl.C14.GenDispatch
 namespace Tetl.C14.Driver
 open Tetl Tetl.Proto Tetl.C14
 
@@ -132,7 +137,15 @@ def step (_ : Unit) (l : Line) : Unit × String :=
     let tn := (l.str? "t").getD ""
     if isCharTy tn && (!charOps.contains l.op || ((l.get? "u").isSome && l.str? "u" != some tn)) then bad else
     if (l.str? "u").any isCharTy && !isCharTy tn then bad else
-    let eval := eval (l.int? "n")
+    let un := l.str? "u"
+    let isVal (m : String) : Bool := m.front.isDigit || m.front == '-'
+    let eval (op : String) (t : ITy) (u : Option ITy) (a : Int) (b : Option Int) : Option (String × String) :=
+      match eval (l.int? "n") op t u a b with
+      | none => none
+      | some (m, s) =>
+        match GenDispatch.eval op tn un a b with
+        | some gv => if isVal m && gv != m then some (s!"{m}!gen={gv}", s) else some (m, s)
+        | none => some (m, s)
     match l.int? "a", l.list? "as", l.int? "b", l.list? "bs" with
     | some a, none, b, none =>
       match eval l.op t u a b with
